@@ -168,6 +168,124 @@ theorem updHeads_get (pi : Rat) (ts : List Tank) (ps hs qs : List Rat) (dt : Rat
             obtain ⟨h, e1, e2⟩ := ih pr hr qr j ht hp hq (by omega)
             exact ⟨h, by simpa using e1, by simpa [updHeads] using e2⟩
 
+/-! ### `check`: what it leaves in `_last_value` and which entries are due -/
+
+theorem check_spec (cfg : Cfg) (sel : RCtl → Bool) (heads : List Rat) (dem : Option (List Rat)) (sol : Option Sol) (pT cT : Int) :
+    ∀ (ctls : List RCtl) (lasts : List Rat) (j : Nat) (rc : RCtl), ctls[j]? = some rc → sel rc = true →
+      (check cfg sel heads dem sol pT cT ctls lasts).2[j]? = some (evalCond cfg heads dem sol pT cT (lasts.getD j 0) rc.cond).2.2
+      ∧ ((evalCond cfg heads dem sol pT cT (lasts.getD j 0) rc.cond).1 = true →
+          ⟨rc.ctl, (evalCond cfg heads dem sol pT cT (lasts.getD j 0) rc.cond).2.1⟩ ∈ (check cfg sel heads dem sol pT cT ctls lasts).1) := by
+  intro ctls
+  induction ctls with
+  | nil => intro lasts j rc h; simp at h
+  | cons c cs ih =>
+    intro lasts j rc h hs
+    cases j with
+    | zero =>
+      simp at h; subst h
+      have e : lasts.headD 0 = lasts.getD 0 0 := by cases lasts <;> rfl
+      simp only [check, hs, if_true, e]
+      constructor
+      · simp
+      · intro ht
+        apply List.mem_append_left
+        rw [if_pos ht]
+        exact List.mem_singleton.mpr rfl
+    | succ n =>
+      simp at h
+      have e : ∀ m, lasts.tail.getD m 0 = lasts.getD (m + 1) 0 := by intro m; cases lasts <;> simp
+      obtain ⟨a, b⟩ := ih lasts.tail n rc h hs
+      rw [e] at a b
+      unfold check
+      by_cases hc : sel c = true
+      · simp only [hc, if_true]
+        exact ⟨by simpa using a, fun ht => List.mem_append_right _ (b ht)⟩
+      · simp only [hc]
+        exact ⟨by simpa using a, b⟩
+
+theorem check_due_src (cfg : Cfg) (sel : RCtl → Bool) (heads : List Rat) (dem : Option (List Rat)) (sol : Option Sol) (pT cT : Int) :
+    ∀ (ctls : List RCtl) (lasts : List Rat) (d : Due), d ∈ (check cfg sel heads dem sol pT cT ctls lasts).1 →
+      ∃ rc ∈ ctls, sel rc = true ∧ d.ctl = rc.ctl := by
+  intro ctls
+  induction ctls with
+  | nil => intro lasts d h; simp [check] at h
+  | cons c cs ih =>
+    intro lasts d h
+    unfold check at h
+    by_cases hc : sel c = true
+    · simp only [hc, if_true] at h
+      rcases List.mem_append.mp h with h1 | h1
+      · split at h1
+        · simp at h1; exact ⟨c, List.mem_cons_self, hc, by rw [h1]⟩
+        · simp at h1
+      · obtain ⟨rc, hr, a, b⟩ := ih _ d h1
+        exact ⟨rc, List.mem_cons_of_mem _ hr, a, b⟩
+    · simp only [hc] at h
+      obtain ⟨rc, hr, a, b⟩ := ih _ d h
+      exact ⟨rc, List.mem_cons_of_mem _ hr, a, b⟩
+
+/-- cylinder: whatever happens, `evaluate` leaves `_last_value` at the value it was called on -/
+theorem evalLevel_last_cyl (pi : Rat) (t : Tank) (hc : t.curve = none) (c : LevelCond) (h : Rat) (q : Option Rat) (last : Rat) :
+    (evalLevel pi t c h q last).last = attrValue t h c.attr := by
+  unfold evalLevel
+  simp only [hc]
+  split
+  · cases q with
+    | none => rfl
+    | some qq => by_cases hz : (qq == 0) = true <;> simp [hz]
+  · rfl
+
+theorem trials_ok_lasts (cfg : Cfg) (t prevT : Int) (heads : List Rat) :
+    ∀ (fuel trial : Nat) (ls : Links) (lasts : List Rat) (sol : Sol) (b a : Links) (due : List Ctl) (l : List Rat),
+      trials cfg t prevT heads fuel trial ls lasts = .ok sol b a due l →
+      ∃ lasts', l = (check cfg (·.post) heads (some sol.demand) (some sol) prevT t cfg.ctls lasts').2 := by
+  intro fuel
+  induction fuel with
+  | zero => intro trial ls lasts sol b a due l h; simp [trials] at h
+  | succ n ih =>
+    intro trial ls lasts sol b a due l h
+    unfold trials at h
+    cases hs : cfg.solve ls t heads with
+    | none => simp [hs] at h
+    | some sol' =>
+      simp only [hs] at h
+      by_cases hc : changed cfg.tracked ls
+          (runPass ((check cfg (·.post) heads (some sol'.demand) (some sol') prevT t cfg.ctls lasts).1.map (·.ctl)) ls) = true
+      · simp only [hc, if_true] at h
+        by_cases ht : trial + 1 > cfg.maxTrials
+        · simp [ht] at h
+        · simp only [ht, if_false] at h
+          exact ih _ _ _ _ _ _ _ _ h
+      · have hc' : changed cfg.tracked ls
+            (runPass ((check cfg (·.post) heads (some sol'.demand) (some sol') prevT t cfg.ctls lasts).1.map (·.ctl)) ls) = false := by
+          simpa using hc
+        simp only [hc', Bool.false_eq_true, if_false] at h
+        injection h with h1 h2 h3 h4 h5
+        subst h1
+        exact ⟨lasts, h5.symm⟩
+
+/-- after an accepted step the `_last_value` of every pre-and-postsolve level condition on a cylindrical tank is the ACCEPTED value -/
+theorem step_lasts (cfg : Cfg) (s : St) (r : Row) (hrow : (step cfg s).rows = r :: s.rows) (j i : Nat) (rc : RCtl) (c : LevelCond)
+    (t : Tank) (h : Rat) (hrc : cfg.ctls[j]? = some rc) (hpost : rc.post = true) (hcond : rc.cond = .level i c)
+    (ht : cfg.tanks[i]? = some t) (hcyl : t.curve = none) (hh : r.heads[i]? = some h) :
+    (step cfg s).lasts[j]? = some (attrValue t h c.attr) := by
+  cases htr : trials cfg (preResult cfg s).2 s.prevTime (acceptedHeads cfg s) (cfg.maxTrials + 2) 0 (preResult cfg s).1 (preCheck cfg s).2 with
+  | error =>
+    rw [step_of_error cfg s htr] at hrow
+    simp at hrow
+  | ok sol b a due l =>
+    obtain ⟨lasts', hl⟩ := trials_ok_lasts cfg _ _ _ _ _ _ _ _ _ _ _ _ htr
+    rw [step_of_ok cfg s sol b a due l htr] at hrow ⊢
+    simp only [List.cons.injEq, and_true] at hrow
+    subst hrow
+    simp only at hh ⊢
+    rw [hl]
+    have := (check_spec cfg (·.post) (acceptedHeads cfg s) (some sol.demand) (some sol) s.prevTime (preResult cfg s).2
+      cfg.ctls lasts' j rc hrc hpost).1
+    rw [this, hcond]
+    simp only [evalCond, ht, hh]
+    rw [evalLevel_last_cyl cfg.pi t hcyl]
+
 theorem updHeads_get_inv (pi : Rat) (ts : List Tank) (ps hs qs : List Rat) (dt : Rat) (i : Nat) (h2 : Rat)
     (h : (updHeads pi ts ps hs qs dt)[i]? = some h2) :
     ∃ t p h q, ts[i]? = some t ∧ ps[i]? = some p ∧ hs[i]? = some h ∧ qs[i]? = some q ∧ h2 = updateHead pi t p h q dt := by
